@@ -32,6 +32,7 @@ R.kind_hints[("Node._connect_to_peer", "[]")] = "List[str]"
 
 del R.contracts["Node._connect_to_peer"]
 R.contract("Node._connect_to_peer", params={"self": "Node", "peer": "Peer"},
+           ghost={"gp": "Peer"},
            ghost_out={"c": ("conn", "PeerConnection"), "s": ("peer_socket", "Socket")},
            requires=[("generators", "seq_ok(self.end_to_end_seq)"),
                      ("identity-encodable", "encodable(self.origin_host) and encodable(self.realm_name)")],
@@ -51,11 +52,13 @@ R.contract("Node._connect_to_peer", params={"self": "Node", "peer": "Peer"},
                      "implies(old(is_none(peer.connection)) and old(len(peer.ip_addresses)) > 0 and "
                      "c.ident in self.connections and self.connections[c.ident] == c and c.state == %d, "
                      "len(out(c)) == 1 and is_req(items(out(c))[0]) and type_is(items(out(c))[0], CapabilitiesExchangeRequest))" % CONNECTED),
+                    ("a-peer-left-without-a-connection-has-a-disconnect-reason-if-it-had-one-or-had-a-connection", "implies(is_none(gp.connection) and (old(not is_none(gp.disconnect_reason)) or old(not is_none(gp.connection))), not is_none(gp.disconnect_reason))"),
                     ("connected-peer-is-not-dialled-again",
                      "implies(old(not is_none(peer.connection)), unchanged(self.connections) and "
                      "peer.connection == old(peer.connection))")],
            raises=[Raise("RuntimeError", "True", "may")],
            ghost_ensures_exc={"RuntimeError": ["self.g_dialled == old(self.g_dialled) + [peer]"]},
+           ensures_exc={"RuntimeError": [("a-peer-left-without-a-connection-has-a-disconnect-reason-if-it-had-one-or-had-a-connection", "implies(is_none(gp.connection) and (old(not is_none(gp.disconnect_reason)) or old(not is_none(gp.connection))), not is_none(gp.disconnect_reason))")]},
            ghost_modifies=["self.g_dialled", "*MsgQueue.g_put"],
            ghost_ensures=["self.g_dialled == old(self.g_dialled) + [peer]"],
            modifies=["peer.connection", "peer.disconnect_reason", "peer.last_connect", "peer.last_disconnect",
